@@ -6,7 +6,10 @@ use serde_json::Value;
 pub mod c01;
 pub mod c02;
 pub mod c03;
+pub mod bmoc_common;
 pub mod c04;
+pub mod c07;
+pub mod c08;
 pub mod c10;
 pub mod c11;
 pub mod c14;
@@ -30,6 +33,8 @@ pub fn registry() -> Vec<PropEntry> {
     PropEntry { id: "C02", meta: c02::meta, run: c02::run, replay: c02::replay, profiles: &["release", "chk"] },
     PropEntry { id: "C03", meta: c03::meta, run: c03::run, replay: c03::replay, profiles: &["release", "chk"] },
     PropEntry { id: "C04", meta: c04::meta, run: c04::run, replay: c04::replay, profiles: &["release", "chk"] },
+    PropEntry { id: "C07", meta: c07::meta, run: c07::run, replay: c07::replay, profiles: &["release", "chk"] },
+    PropEntry { id: "C08", meta: c08::meta, run: c08::run, replay: c08::replay, profiles: &["release", "chk"] },
     PropEntry { id: "C10", meta: c10::meta, run: c10::run, replay: c10::replay, profiles: &["release", "chk"] },
     PropEntry { id: "C11", meta: c11::meta, run: c11::run, replay: c11::replay, profiles: &["release", "chk"] },
     PropEntry { id: "C14", meta: c14::meta, run: c14::run, replay: c14::replay, profiles: &["release", "chk"] },
